@@ -1647,8 +1647,10 @@ HLPcloseAID(accrec_t *access_rec)
         }
 
         free(info);
-        access_rec->special_info = NULL;
     }
+
+    /* this access record no longer refers to the information record, freed or not */
+    access_rec->special_info = NULL;
 
     return ret_value;
 } /* HLPcloseAID */
